@@ -32,6 +32,11 @@ def term_set(name: str):
         return T.U1(T.K)
     if name == "S3K4":
         return programs.spine3(T.K4)
+    if name == "BYTES":
+        b, ba = T.BYTES_LEAVES["bytes"], T.BYTES_LEAVES["bytearray"]
+        s_ = T.LEAVES["str"]
+        return [b, ba, T.Seq("list", b), T.Seq("list", ba), T.Map("dict", s_, b), T.Map("dict", s_, ba), T.Optional(b), T.Optional(ba),
+                T.FTuple("tuple", [b, ba]), T.Seq("tuple...", b), T.ClsTerm("DC", "HasBytes", [("x", b, None), ("y", ba, None)])]
     if name.startswith("P:"):
         return programs.template_terms(name[2:])
     raise KeyError(name)
